@@ -115,7 +115,10 @@ class Prog:
             return ("none", b"\x19" + struct.pack("<I", sid), 0, None, "close")
         if k == "longdata":
             sid = rng.choice(known) if known and rng.random() < 0.6 else 9999
-            return ("none", b"\x18" + struct.pack("<IH", sid, 0) + b"chunk", 0, None, "longdata")
+            # chunks are cut by byte count: they may end inside a character or be binary; parameter 7 is beyond every
+            # statement of this program, so the data never reaches a later execute
+            chunk = rng.choice([b"chunk", b"caf\xc3", b"\xa9", b"\xff\xfe\x00", b""])
+            return ("none", b"\x18" + struct.pack("<IH", sid, 0 if chunk == b"chunk" else 7) + chunk, 0, None, "longdata")
         if k == "fieldlist":
             p = gen_plan(rng)
             p["rows"] = [("row", i, False) for i in range(rng.choice([0, 1, 3]))]
